@@ -27,7 +27,7 @@ def check_abstraction(case, abstract, r):
 
 
 def describe(case):
-    return "%s %s%s default=%s env=%s argv=%s" % (case["type"], case["role"], " (Ptr)" if case["ptr"] else "", json.dumps(case["default"]),
+    return "%s %s%s%s default=%s env=%s argv=%s" % (case["type"], case["role"], " (Ptr)" if case["ptr"] else "", " (convenience method)" if case.get("conv") else "", json.dumps(case["default"]),
                                                     [(e["state"], e["value"]) for e in case["envs"]], case["argv"])
 
 
